@@ -27,6 +27,7 @@ type GenOpts struct {
 	Names          []string // function-name alphabet (nil ⇒ default)
 	SmallValues    bool     // values in [-50,50]
 	Header         bool     // random header fields
+	AllDefault     bool     // over-represent all-default (empty/zero) elements: ValueType{"",""}, empty comments, zero ints
 }
 
 func dflt(v, d int) int {
@@ -101,7 +102,11 @@ func GenProfile(r *Rng, o *GenOpts) *profile.Profile {
 	types := []string{"samples", "cpu", "alloc_space", "inuse_objects", "contentions", "delay"}
 	units := []string{"count", "nanoseconds", "bytes", "ms", "kb", ""}
 	for i := 0; i < nst; i++ {
-		p.SampleType = append(p.SampleType, &profile.ValueType{Type: r.Str(o, types), Unit: r.Str(o, units)})
+		st := &profile.ValueType{Type: r.Str(o, types), Unit: r.Str(o, units)}
+		if o.AllDefault && r.Chance(40) {
+			st = &profile.ValueType{}
+		}
+		p.SampleType = append(p.SampleType, st)
 	}
 	names := o.Names
 	if names == nil {
@@ -194,6 +199,15 @@ func GenProfile(r *Rng, o *GenOpts) *profile.Profile {
 			p.Comments = append(p.Comments, r.Str(o, []string{"c1", "c2", "hello world"}))
 		}
 		p.DocURL = r.Str(o, []string{"", "http://x/y"})
+		if o.AllDefault {
+			if r.Chance(50) {
+				p.PeriodType = &profile.ValueType{}
+			}
+			p.Comments = append(p.Comments, "")
+			if r.Chance(50) {
+				p.Comments = append(p.Comments, "", "")
+			}
+		}
 		if len(p.SampleType) > 0 && r.Chance(50) {
 			p.DefaultSampleType = p.SampleType[r.Intn(len(p.SampleType))].Type
 		}
@@ -230,7 +244,8 @@ func (r *Rng) genLabels(o *GenOpts, s *profile.Sample) {
 			}
 			s.NumLabel[k] = vs
 			switch r.Intn(3) {
-			case 0: // no units
+			case 0: // no units (the key may have been drawn before: keep the documented alignment)
+				delete(s.NumUnit, k)
 			case 1: // all units
 				us := make([]string, len(vs))
 				for j := range us {
